@@ -330,7 +330,8 @@ fn run_fs_stack(hist: &Hist, rules: Vec<Rule>, c: &mut Case) {
             });
             last_rej = match cause {
                 Some(k) => k,
-                None if req.is_empty() => "refused-empty-path",
+                // refused without touching the stack: the cause of a later imbalance is an earlier refusal
+                None if req.is_empty() => last_rej,
                 None => "refused-non-normal-component",
             };
             rejected_paths.push((idx, req_normal.clone()));
